@@ -108,7 +108,7 @@ fn main() {
         budget_thorough_s: 900,
     };
     run_property(prop, |ctx| {
-        let (bmax, emax, lmax) = ctx.tier.pick((64u64, 24u64, 4000u64), (96, 40, 12000));
+        let (bmax, emax, lmax) = ctx.tier.pick((64u64, 24u64, 4000u64), (160, 64, 30000));
         let mut gens = vec![];
         // one case per (B,E) slab: all L in 0..=lmax
         let slabs = (bmax * emax) as usize;
@@ -183,7 +183,7 @@ fn main() {
             cr
         }));
         // seeded random large triples, batches of 2000
-        let batches = ctx.tier.pick(200usize, 10000);
+        let batches = ctx.tier.pick(200usize, 100_000);
         gens.push(Gen::new("random_large", batches, move |ctx, i| {
             let mut rng = Rng::keyed(ctx.seed, "C07rand", 0, i as u64);
             let mut cr = CaseResult::default();
@@ -219,7 +219,7 @@ fn main() {
         // what flute's receiver side rebuilds from an in-band EXT_FTI built by flute's sender side:
         // RaptorQ (6) and Raptor (1) do not carry B, it is derived from (F, T, Z); the rebuilt OTI must
         // give the sender's partition. Lattice of lengths around every multiple of Z*T.
-        let fti_cases = ctx.tier.pick(400usize, 6000);
+        let fti_cases = ctx.tier.pick(400usize, 60_000);
         gens.push(Gen::new("ext_fti_rebuild", fti_cases, move |ctx, i| {
             use flute::core::FECEncodingID;
             let mut rng = Rng::keyed(ctx.seed, "C07fti", 0, i as u64);
@@ -277,7 +277,7 @@ fn main() {
             cr
         }));
         // end to end: structure on the wire == reference partition, receiver delivers
-        let e2e = ctx.tier.pick(600usize, 30000);
+        let e2e = ctx.tier.pick(600usize, 150_000);
         gens.push(Gen::new("end_to_end", e2e, move |ctx, i| {
             let mut rng = Rng::keyed(ctx.seed, "C07e2e", 0, i as u64);
             let fec = *rng.pick(&[Fec::NoCode, Fec::Rs28, Fec::Rs28Us, Fec::RaptorQ, Fec::Raptor]);
